@@ -30,11 +30,25 @@ from harness.probes import dy
 PRE = ('From Coq Require Import List Arith Bool.\nFrom ND.lib Require Import Expr.\n'
        'From ND.model Require Import Networks.\nImport ListNotations.\n')
 
-ACTS = ['default', 'Tanh', 'SinActv', 'Swish', 'APTx']
+ACTS = ['default', 'Tanh', 'SinActv', 'Swish', 'APTx', 'PReLU', 'Swish_t', 'APTx_t']
+# stateful activations (own trainable parameters per instance): name -> (module class name, parameters per instance)
+STATEFUL = {'PReLU': ('PReLU', 1), 'Swish_t': ('Swish', 1), 'APTx_t': ('APTx', 3)}
 
 
 def act_class(torch, N, name):
-    return {'default': None, 'Tanh': torch.nn.Tanh, 'SinActv': N.SinActv, 'Swish': N.Swish, 'APTx': N.APTx}[name]
+    return {'default': None, 'Tanh': torch.nn.Tanh, 'SinActv': N.SinActv, 'Swish': N.Swish, 'APTx': N.APTx, 'PReLU': torch.nn.PReLU,
+            'Swish_t': (lambda: N.Swish(trainable=True)), 'APTx_t': (lambda: N.APTx(trainable=True))}[name]
+
+
+def act_params(m):
+    """Current parameters of an activation module instance (for the explicit composition)."""
+    out = {}
+    for k in ('alpha', 'beta', 'gamma'):
+        if hasattr(m, k):
+            out[k] = float(getattr(m, k))
+    if type(m).__name__ == 'PReLU':
+        out['a'] = float(m.weight.detach().reshape(-1)[0])
+    return out
 
 
 def act_formula(name, x, params=None):
@@ -44,9 +58,11 @@ def act_formula(name, x, params=None):
         return math.tanh(x)
     if name == 'SinActv':
         return math.sin(x)
-    if name == 'Swish':
+    if name == 'PReLU':
+        return max(0.0, x) + p.get('a', 0.25) * min(0.0, x)
+    if name in ('Swish', 'Swish_t'):
         return x / (1.0 + math.exp(-(p.get('beta', 1.0) * x)))
-    if name == 'APTx':
+    if name in ('APTx', 'APTx_t'):
         return (p.get('alpha', 1.0) + math.tanh(p.get('beta', 1.0) * x)) * p.get('gamma', 0.5) * x
     raise ValueError(name)
 
@@ -184,7 +200,7 @@ def check_arch(ck, torch, N, cfg, cases, do_model=True):
     seq = net.NN if cfg['cls'] == 'FCNN' else net.residual.NN
     obs = observe_layers(torch, seq)
     hid = expected_hidden(cfg)
-    aname = 'Tanh' if cfg['act'] == 'default' else cfg['act']
+    aname = 'Tanh' if cfg['act'] == 'default' else STATEFUL.get(cfg['act'], (cfg['act'],))[0]
     units = [cfg['n_in']] + hid
     exp = []
     for i in range(len(hid)):
@@ -203,12 +219,34 @@ def check_arch(ck, torch, N, cfg, cases, do_model=True):
                     expected=('L', cfg['n_in'], cfg['n_out'], False), actual=sk_obs)
     else:
         sk_obs = None
-    # parameters: only the Linear weights unless a trainable activation was requested (never, here)
+    # ---- an independent module per entry: no module object appears twice in the Sequential
+    seen = {}
+    ids_obs = [seen.setdefault(id(mod), len(seen)) for mod in seq]
+    if ids_obs != list(range(len(ids_obs))):
+        ck.fail(f'{key}/shared-module', f'{cfg["cls"]}: a module object appears more than once in the Sequential (activation instance shared between layers)',
+                inp, expected=list(range(len(ids_obs))), actual=ids_obs)
+    # ---- parameters: the Linear weights, plus one independent parameter set per activation instance when the
+    # requested activation is stateful (PReLU, trainable Swish / APTx); nothing else
+    per_act = STATEFUL.get(cfg['act'], (None, 0))[1]
     n_lin = sum(1 for l in obs if l[0] == 'L') * 2 + (1 if cfg['cls'] == 'Resnet' else 0)
+    n_exp = n_lin + per_act * len(hid)
     n_par = sum(1 for _ in net.parameters())
-    if n_par != n_lin and obs == exp:
-        ck.fail(f'{key}/extra-parameters', 'network has trainable parameters besides the Linear weights although no trainable activation was requested',
-                inp, expected=n_lin, actual=n_par)
+    if n_par != n_exp and obs == exp:
+        ck.fail(f'{key}/parameter-count', f'{cfg["cls"]} with activation {cfg["act"]}: {n_par} parameter tensors, documented count {n_exp} '
+                f'({n_lin} for the Linear layers + {per_act} per activation instance x {len(hid)} hidden layers)', inp, expected=n_exp, actual=n_par)
+    # ---- after one optimiser step with generic gradients the per-layer activation parameters can differ
+    if per_act and len(hid) >= 2 and obs == exp:
+        acts = [mod for mod in seq if not isinstance(mod, torch.nn.Linear)]
+        torch.manual_seed(12345 + len(hid))
+        x = torch.randn(7, cfg['n_in'], dtype=torch.float64)
+        opt = torch.optim.SGD(net.parameters(), lr=0.1)
+        opt.zero_grad()
+        (net(x) ** 2).sum().backward()
+        opt.step()
+        vals = [tuple(round(v, 12) for v in sorted(act_params(a).values())) for a in acts]
+        if len(set(vals)) == 1:
+            ck.fail(f'{key}/activation-parameters-tied', f'{cfg["cls"]} with activation {cfg["act"]}: after one SGD step with generic gradients every hidden layer has '
+                    'identical activation parameters (one shared parameter set instead of one per layer)', inp, expected='per-layer values differ', actual=vals[:4])
     ck.add_case((cfg['cls'], cfg['n_in'], cfg['n_out'], cfg['form'], cfg['nhu'], cfg['nhl'], tuple(cfg['hidden'] or ()), cfg['act'],
                  cfg.get('hidden_kind'), cfg.get('num_kind'), cfg.get('actv_kind')),
                 nontrivial=True)
@@ -217,6 +255,11 @@ def check_arch(ck, torch, N, cfg, cases, do_model=True):
     # ---- hand model inside Coq
     args = f"{cfg['n_in']} {cfg['n_out']} {coq_opt(cfg['nhu'])} {coq_opt(cfg['nhl'])} {coq_hidden(cfg['hidden'])}"
     label = json.dumps(cfg, sort_keys=True)
+    ids_lit = '[' + '; '.join(f'{k}%nat' for k in ids_obs) + ']'
+    if cfg['cls'] == 'FCNN':
+        cases.append((label + ':ids', f'list_eqb Nat.eqb (module_ids (fcnn_init {args})) {ids_lit}'))
+    else:
+        cases.append((label + ':ids', f'list_eqb Nat.eqb (module_ids (fst (resnet_init {args}))) {ids_lit}'))
     if cfg['cls'] == 'FCNN':
         cases.append((label, f'layers_eqb (fcnn_init {args}) {coq_layers(obs)}'))
     else:
@@ -225,7 +268,10 @@ def check_arch(ck, torch, N, cfg, cases, do_model=True):
     # ---- pyfront's reading of the constructor source
     try:
         hidden_arg = 'absent' if cfg['hidden'] is None else (list(cfg['hidden']) if cfg.get('hidden_kind') == 'list' else tuple(cfg['hidden']))
-        src_layers, src_skip = interp_layers(REPO, cfg['cls'], cfg['n_in'], cfg['n_out'], cfg['nhu'], cfg['nhl'], hidden_arg)
+        src_layers, src_skip, src_ids = interp_layers(REPO, cfg['cls'], cfg['n_in'], cfg['n_out'], cfg['nhu'], cfg['nhl'], hidden_arg, with_ids=True)
+        if src_ids != ids_obs:
+            ck.broke('correspondence-broken', f'pyfront:{cfg["cls"]}.__init__',
+                     f'module identity pattern read from the source {src_ids} differs from the constructed module {ids_obs} for {cfg}')
         src_obs = [(l[0], l[1], l[2], l[3]) if l[0] == 'L' else ('A', aname) for l in src_layers]
         ck.traces += 1
         if src_obs != obs or (cfg['cls'] == 'Resnet' and tuple(src_skip) != sk_obs):
@@ -256,7 +302,7 @@ def compose(torch, net, cfg, xs):
             if isinstance(m, torch.nn.Linear):
                 h = lin(m, h)
             else:
-                h = [act_formula(aname, v) for v in h]
+                h = [act_formula(aname, v, act_params(m)) for v in h]
         if cfg['cls'] == 'Resnet':
             s = lin(net.skip_connection, row)
             h = [a + b for a, b in zip(s, h)]
@@ -485,6 +531,12 @@ def run(ck, res, n_arch, n_fwd, n_act, n_mono, n_goals, do_model=True):
                    'hidden_kind': 'tuple', 'num_kind': 'np', 'actv_kind': 'lambda'})
     corner.append({'cls': 'Resnet', 'n_in': 3, 'n_out': 1, 'act': 'Swish', 'form': 'tuple', 'nhu': None, 'nhl': None, 'hidden': [],
                    'hidden_kind': 'genexp', 'num_kind': 'int', 'actv_kind': 'partial'})
+    for act_ in STATEFUL:
+        for cls_, hid_ in (('FCNN', [3, 3]), ('Resnet', [4, 2, 5]), ('FCNN', [6])):
+            corner.append({'cls': cls_, 'n_in': 2, 'n_out': 3, 'act': act_, 'form': 'tuple', 'nhu': None, 'nhl': None, 'hidden': list(hid_),
+                           'hidden_kind': 'tuple', 'num_kind': 'int', 'actv_kind': 'class' if act_ == 'PReLU' else 'lambda'})
+    corner.append({'cls': 'FCNN', 'n_in': 1, 'n_out': 1, 'act': 'PReLU', 'form': 'legacy_both', 'nhu': 4, 'nhl': 2, 'hidden': None,
+                   'hidden_kind': 'tuple', 'num_kind': 'int', 'actv_kind': 'partial'})
     cfgs = corner + [gen_arch_cfg(r, ci) for ci in range(n_arch)]
     for ci, cfg in enumerate(cfgs):
         dist[f"arch:{cfg['cls']}/{cfg['form']}"] = dist.get(f"arch:{cfg['cls']}/{cfg['form']}", 0) + 1
